@@ -67,4 +67,10 @@ META = {
   text="All singles and pairs are enumerated completely in both declaration contexts; larger sets are sampled by provenance class. A selected field that is not fetched shows up as a zero/empty column against distinct non-zero source values.",
   note="Trusted: sim node JSON rendering, fakepg value decoding (pgx codecs), model.FieldValue provenance.",
  ),
+ "C11": dict(
+  design_ref="DESIGN.md §5 C11",
+  technique="rapid generated declarations x chains through the full wire path, cell-by-cell comparison with an independent field/type model; plus high-volume row-builder differential with a capturing connection",
+  text="Generated search over event layouts, field subsets, column orders and integer sign patterns; every stored cell is compared with the model value of the field it names. Exploration with bounded sizes; no absence claim.",
+  note="Trusted: refmodel.TypedCell (documented type mapping), model.FieldValue, sim JSON rendering, pgx codecs for transport.",
+ ),
 }
